@@ -20,9 +20,11 @@ Item = Pair | W | T("-")
 class W { w: /[ab\n]+/ |> `cb` }
 class Pair { k: W << ":"; v: W }
 T(p) = p >> W
+Acc = let acc = `[]` in (/[ab]/ |> `acc.append`)* >> `acc`
 '''
 OTHER = 'start = Num*\nignore / +/\nclass Num { n: /[0-9]+/ |> `int` }\n'
-CHILD = 'grammar %(child)s extends %(parent)s\nclass W { w: /[abc]+/ }\nExtra = "z"\n'
+CHILD = ('grammar %(child)s extends %(parent)s\nignore /~+/\nclass W { w: /[abc]+/ }\nItem = Pair | W | T("-")\nExtra = "z"\n')
+CHILD_TEXTS = ['-~ab c:~a', 'a:b -c', '-ab b:a']
 
 # the calls: (entry, text, pos, fullparse)
 CALLS = [
@@ -33,6 +35,8 @@ CALLS = [
     (None, 'a:b a:', 0, True),          # partial
     (None, '-ab b:a', 0, False),
     ('Pair', 'a\nb:b', 0, True),
+    ('Acc', 'abb', 0, True),             # inline Python builds and fills a fresh list per parse
+    (None, '-~ab', 0, True),             # text that only a derived grammar (with its own ignore) accepts further
 ]
 
 
@@ -47,7 +51,7 @@ def build(named=None):
     return b[1]
 
 
-def outcome(g, call, raising=False):
+def outcome(g, call, raising=False, keep_text=False):
     ent, text, pos, full = call
     parse = impl.entry(g, ent)
     ident = threading.get_ident()
@@ -56,7 +60,8 @@ def outcome(g, call, raising=False):
             raise Boom()
         g.HOOKS[ident] = hook
     try:
-        o = impl.run(parse, e1.fresh(text), pos, full, spans=True, time_limit=20.0)
+        in_main = threading.current_thread() is threading.main_thread()
+        o = impl.run(parse, text if keep_text else e1.fresh(text), pos, full, spans=True, time_limit=5.0 if in_main else None)
     finally:
         if raising:
             g.HOOKS.pop(ident, None)
@@ -69,6 +74,16 @@ def baseline():
     for i, c in enumerate(CALLS):
         base[i] = outcome(build(), c)
     base['raise'] = outcome(build(), CALLS[0], raising=True)
+    # the derived grammar, used alone right after it was built on a fresh base
+    for j, t in enumerate(CHILD_TEXTS):
+        uid = e1.unique_name('c18b')
+        build(uid)
+        b = impl.build(CHILD % {'child': uid + '_child', 'parent': uid})
+        if b[0] != 'OK':
+            raise RuntimeError('child grammar does not compile: %r' % (b,))
+        base[('child', j)] = outcome(b[1], (None, t, 0, True))
+        impl.uninstall(uid + '_child')
+        impl.uninstall(uid)
     return base
 
 
@@ -108,7 +123,8 @@ def state_hash(g):
 
 # --- (i) histories ------------------------------------------------------------------------------------
 def history_ops():
-    return [('call', i) for i in range(len(CALLS))] + [('raise',), ('build-other',), ('rebuild-same-name',), ('build-child',)]
+    return ([('call', i) for i in range(len(CALLS))] + [('raise',), ('build-other',), ('rebuild-same-name',), ('build-child',)]
+            + [('use-child', j) for j in range(len(CHILD_TEXTS))])
 
 
 def history_job(job, st):
@@ -122,6 +138,7 @@ def history_job(job, st):
             hist = (first_op,) + rest
             uid = e1.unique_name('c18h')
             g = build(uid)
+            child = None
             res['ctr']['states'] += 1
             try:
                 for k, op in enumerate(hist):
@@ -145,14 +162,18 @@ def history_job(job, st):
                             got, exp = b, 'module'
                     else:
                         # a grammar that extends this one (by name: only meaningful while the name still denotes it)
-                        if sys.modules.get(uid) is g:
-                            b = impl.build(CHILD % {'child': uid + '_child', 'parent': uid})
-                            got = exp = None
-                            if b[0] != 'OK':
-                                got, exp = b, 'module'
-                            impl.uninstall(uid + '_child')
-                        else:
-                            got = exp = None
+                        got = exp = None
+                        if op[0] == 'build-child':
+                            if sys.modules.get(uid) is g and child is None:
+                                b = impl.build(CHILD % {'child': uid + '_child', 'parent': uid})
+                                if b[0] != 'OK':
+                                    got, exp = b, 'module'
+                                else:
+                                    child = b[1]
+                        elif child is not None:
+                            # use the derived grammar: it behaves as when used alone, whatever happened to the base before
+                            got = outcome(child, (None, CHILD_TEXTS[op[1]], 0, True))
+                            exp = base[('child', op[1])]
                     res['ctr']['cases'] += 1
                     if k > 0:
                         res['ctr']['nontrivial'] += 1
@@ -161,16 +182,24 @@ def history_job(job, st):
                         case = {'history': [list(o) for o in hist[:k + 1]], 'scenario': 'single grammar'}
                         add_viol(res, sigs, 'history outcome-depends-on-earlier-operations (%s after %s)' % (op[0], hist[k - 1][0] if k else 'start'),
                                  case, exp, got)
+                        if got and got[0] == 'DIVERGES':
+                            res['_retire'] = True
+                            return res          # a runaway call: nothing after it can be trusted, abandon the job
                 res['sets']['state_hashes'].add(state_hash(g))
             finally:
+                impl.uninstall(uid + '_child')
                 impl.uninstall(uid)
     res['sample'] = {'history': [list(o) for o in ((first_op,) + tuple(ops[:depth - 1]))], 'calls': [list(map(repr, c)) for c in CALLS[:3]]}
     return res
 
 
 # --- (ii) schedules -------------------------------------------------------------------------------------
-def body_for(g, base, spec):
+def body_for(g, base, spec, shared=None):
     if spec[0] == 'call':
+        if shared is not None:
+            # both threads parse the SAME text object
+            ent, text, pos, full = CALLS[spec[1]]
+            return lambda: outcome(g, (ent, shared, pos, full), keep_text=True)
         return lambda: outcome(g, CALLS[spec[1]])
     if spec[0] == 'raise':
         return lambda: outcome(g, CALLS[0], raising=True)
@@ -211,8 +240,14 @@ def schedule_job(job, st):
     expected = [expected_for(base, s) for s in specs]
     cache = {}
 
+    same = len(specs) == 2 and specs[0] == specs[1] and specs[0][0] == 'call'
+    shared = e1.fresh(CALLS[specs[0][1]][1]) if same else None
+    warm = CALLS[1] if not (same and specs[0][1] == 1) else CALLS[0]
+
     def execute(first, sched):
-        ex = sx.Execution([body_for(g, base, s) for s in specs], files, sched, opcodes)
+        # every execution starts from a module that has just parsed a different text
+        outcome(g, warm)
+        ex = sx.Execution([body_for(g, base, s, shared) for s in specs], files, sched, opcodes)
         results, steps, trace = ex.run(first)
         return results, steps, trace, ex.hung
 
@@ -222,7 +257,12 @@ def schedule_job(job, st):
             cache[key] = execute(first, sched)[1]
         return cache[key]
 
+    import time as _time
+    t_job = _time.time()
     for first, sched in sx.schedules(n, steps_of, bound, part):
+        if _time.time() - t_job > 400:
+            res['ctr']['schedule_jobs_cut_by_wall_cap'] = 1      # reported as a cap: not exhaustive
+            break
         results, steps, trace, hung = execute(first, sched)
         res['ctr']['cases'] += 1
         res['ctr']['states'] += 1
@@ -231,6 +271,12 @@ def schedule_job(job, st):
             res['ctr']['nontrivial'] += 1
         res['sets']['outcomes'].add(repr(results)[:300])
         bad = hung or any(r != e for r, e in zip(results, expected))
+        if hung or any(r and r[0] in ('DIVERGES', 'HANG') for r in results):
+            case = {'threads': [list(map(str, s)) for s in specs], 'first': first,
+                    'schedule': [[list(k), v] for k, v in sorted(sched.items())], 'opcodes': opcodes}
+            add_viol(res, sigs, 'schedule call-does-not-terminate', case, expected, results)
+            res['_retire'] = True               # a runaway thread may be left behind: retire this worker
+            return res
         if bad:
             # believe it only if the same schedule replays identically twice
             r2 = execute(first, sched)
@@ -304,6 +350,10 @@ def reentrancy_job(job, st):
             res['sets']['outcomes'].add(repr(o)[:200])
             case = {'call': list(map(repr, call)), 'callback_points': list(pt), 'deviations': [list(d) for d in devset]}
             kinds = [d[0] for d in devset]
+            if o[0] == 'DIVERGES' or any(io[0] == 'DIVERGES' for _, io in inner_out):
+                add_viol(res, sigs, 're-entrancy call-does-not-terminate', case, base[ci], o)
+                res['_retire'] = True
+                return res
             for arg, io in inner_out:
                 if io != base[arg]:
                     add_viol(res, sigs, 're-entrancy nested-call-outcome-differs', case, base[arg], io)
@@ -321,6 +371,9 @@ def reentrancy_job(job, st):
                 o2 = outcome(g, c2)
                 if o2 != base[j]:
                     add_viol(res, sigs, 're-entrancy later-call-differs-after-%s' % '+'.join(kinds), case, base[j], o2)
+                    if o2[0] == 'DIVERGES':
+                        res['_retire'] = True
+                        return res
     res['sets']['state_hashes'].add(state_hash(g))
     res['sample'] = {'call': list(map(repr, call)), 'callback_points': ncb, 'deviations': [list(d) for d in devs[:3]] + ['...']}
     return res
@@ -342,7 +395,7 @@ def all_jobs(tier):
         yield ('reent', ci, tier == 'thorough' and ci in (0, 2, 6))
     # threads: pairs of parse calls (different texts, offsets, entries; failing; raising), line granularity
     specs = [('call', i) for i in range(len(CALLS))] + [('raise',)]
-    pairs = list(itertools.combinations(specs, 2)) + [(s, s) for s in specs[:3]]
+    pairs = list(itertools.combinations(specs, 2)) + [(s, s) for s in specs[:4]]     # (s, s): both threads parse one text object
     for a, b in pairs:
         yield ('sched', (a, b), 1, False)
     # a Grammar() construction interleaved with a parse (the construction runs atomically at every step of the parse;
@@ -369,8 +422,8 @@ def all_jobs(tier):
 def run(tier, seed):
     chk = Check('C18', tier, seed)
     chk.rule = ('one grammar (classes, ignore, template, inline-Python callback, error paths): (i) ALL histories of length <= 3 (thorough 4) '
-                'over 12 operations (7 parse calls with different texts / offsets / entry rules / fullparse, a call abandoned by a raising '
-                'callback, building another grammar, building a grammar that reuses the name, building a grammar that extends it), each '
+                'over 18 operations (9 parse calls with different texts / offsets / entry rules / fullparse, a call abandoned by a raising '
+                'callback, building another grammar, building a grammar that reuses the name, building a grammar that extends it and adds an ignore, 3 calls through that derived grammar), each '
                 'replayed on a freshly built module; (ii) ALL thread interleavings with <= 1 preemption of every pair of 8 call bodies (incl. '
                 'failing and raising ones) and of a parse against a concurrent Grammar() construction, <= 2 preemptions on reduced pairs '
                 '(thorough: 3 threads, opcode granularity), scheduling points = line events of the generated module under a baton '
@@ -380,7 +433,9 @@ def run(tier, seed):
                 'operation after another / deviation')
     chk.assumptions = ['preemption is owned at line (thorough: bytecode) boundaries inside the generated module; C-level atomicity of dict/list/re is assumed (GIL)',
                        'a schedule is believed to violate only if it replays identically twice']
-    chk.explore(dispatch, all_jobs(tier), init=init, chunk=1, job_deadline=1800)
+    chk.explore(dispatch, all_jobs(tier), init=init, chunk=1, job_deadline=600, stop_on_violation=True)
+    if chk.ctr.get('schedule_jobs_cut_by_wall_cap'):
+        chk.caps.append('%d schedule job(s) cut by the 400 s wall cap' % chk.ctr['schedule_jobs_cut_by_wall_cap'])
     chk.notes['distinct_outcomes'] = len(chk.sets.get('outcomes', ()))
     chk.notes['distinct_module_state_hashes'] = len(chk.sets.get('state_hashes', ()))
     return chk.finish(floor=1000)
